@@ -4,6 +4,7 @@ import (
 	"errors"
 	"fmt"
 	"testing"
+	"time"
 
 	"github.com/bartossh/Computantis/src/accountant"
 	"github.com/bartossh/Computantis/src/spice"
@@ -171,15 +172,28 @@ func c13Run(cw *c13World, c c13Case, name string) (sig, msg string, nontrivial b
 					return "missing-parent-not-reported", fmt.Sprintf("step %d: vertex %x delivered before its parent returned %v instead of the parent-missing error", si, v.Hash[:4], aerr), nontrivial, ""
 				}
 				parked := false
-				for _, p := range book.VerifParkedList() {
-					if p.Hash == v.Hash {
-						parked = true
+				for try := 0; try < 4 && !parked; try++ {
+					for _, p := range book.VerifParkedList() {
+						if p.Hash == v.Hash {
+							parked = true
+						}
+					}
+					if !parked && have()[v.Hash] {
+						parked = true // popped and admitted by the node's own ticker in the meantime
+					}
+					if !parked {
+						time.Sleep(3 * time.Millisecond) // popped by the ticker and not yet re-parked
 					}
 				}
 				if !parked {
 					return "orphan-not-parked", fmt.Sprintf("step %d: vertex %x delivered before its parent is not in the orphan buffer", si, v.Hash[:4]), nontrivial, ""
 				}
 			default:
+				if aerr != nil && have()[v.Hash] {
+					// the node's own 2 s retry ticker admitted a parked copy of this very vertex while the direct delivery was
+					// under way: the delivery is rightly refused as a duplicate
+					aerr = nil
+				}
 				if aerr != nil {
 					return "valid-vertex-rejected", fmt.Sprintf("step %d: vertex %x whose parents are present was rejected: %v", si, v.Hash[:4], aerr), nontrivial, ""
 				}
@@ -270,8 +284,9 @@ func c13Run(cw *c13World, c c13Case, name string) (sig, msg string, nontrivial b
 			}
 		}
 	}
-	// deliver whatever of V was never delivered (the property is about the whole set reaching the node), in reverse
-	for i := len(cw.V) - 1; i >= 0; i-- {
+	// deliver whatever of V was never delivered (the property is about the whole set reaching the node) - parents first,
+	// so that the promised retry bound (25 per vertex) is not consumed by the harness's own final phase
+	for i := 0; i < len(cw.V); i++ {
 		if !delivered[cw.V[i].Hash] {
 			cp := sim.CloneVertex(cw.V[i])
 			book.AddLeaf(bg, &cp)
